@@ -724,6 +724,7 @@ class TrxconEngine:
 		self.paths = None
 		self._procs = {}
 		self._pid = None
+		self._sym = trxcon_proc.Symbolizer()     # memo of resolved report frames, per worker
 
 	def setup(self):
 		# every check invocation rebuilds from the repository's working tree
@@ -766,7 +767,7 @@ class TrxconEngine:
 					except Crashed:
 						pass
 				p.kill()
-		return TrxconProc(self.paths[variant]), 0
+		return TrxconProc(self.paths[variant], symbolizer=self._sym), 0
 
 	def _release(self, variant, p, uses, clean):
 		if clean and p.alive() and os.environ.get("VERIF_TRXCON_FRESH") != "1":
@@ -791,7 +792,10 @@ class TrxconEngine:
 			noavoid.add("rsp-no-status")
 		elif r_avoid < 0.12:
 			noavoid.add("measure-short")
-		avoid = [a for a in AVOID_ALL if a not in noavoid]
+		# both findings have been repaired in the repository (known_findings.json: fixed), so no
+		# run steers around their triggers any more; the seeded 6 % still plant the shortest
+		# trigger sequence so that a regression is met quickly
+		avoid = []
 		max_ops = rng.choice([12, 25, 40, 60] if not thorough else [20, 60, 120, 200])
 		profile = rng.choice(["session", "session", "chaos", "queue", "data"])
 		# swarm: which hostile families are enabled in this run
